@@ -17,14 +17,21 @@ P = dict(
                 "(every from-index x to-index pair for emplace<I>/emplace<T>/converting/copy/move assignment, swap, own-alternative assignment), expected, "
                 "inplace_function (captures of 1 and 3 tracked objects; copy/move/assign/nullptr/swap/self-swap/self-assign/call), pair, tuple, static_vector and "
                 "inplace_vector (all C01 histories with tracked elements plus self-assignment/self-swap/copy-only elements), stack. All histories of depth 2 "
-                "(thorough: 3) from the initial state by odometer enumeration plus seeded random histories of 50 steps, under ASan+UBSan."),
+                "(thorough: 3) from the initial state by odometer enumeration plus seeded random histories of 50 steps, under ASan+UBSan. "
+                "Exception injection (C03_throw): for static_vector, inplace_vector, static_set, flat_set, optional, variant, expected and inplace_function holding an "
+                "element whose constructors/assignments can throw, every operation that is not noexcept for that element is repeated with the k-th "
+                "potentially-throwing element operation failing (k = 0,1,2,... until the operation completes); after each attempt the registry must show no "
+                "illegal transition, every exposed element must be live and nothing may be alive after the owner is destroyed (the value left behind is not judged). "
+                "The tracked vector units also run once without exception support (-fno-exceptions), which selects the other branch of uninitialized_copy/move/fill."),
     level_note="the registry sees only objects of the instrumented type; trivially-copyable alternatives are covered by value comparison only; static_set/flat_set lifetimes come from the C09 tracked-key units (only lifetime/crash records of those units count here)",
     technique="runtime lifetime-registry monitor (instrumented element type) + model of live-object count, under ASan+UBSan",
     design_ref="DESIGN.md section 4 C03 and 3.1",
-    rule=("enumerated: 12 owner configurations x every operation history of depth 2 (quick) / 3 (thorough) with every argument (odometer), each history ending with the "
+    rule=("enumerated: 16 owner configurations (incl. an element type with registered constructors/destructor but trivial assignment operators) x every operation history of depth 2 (quick) / 3 (thorough) with every argument (odometer), each history ending with the "
           "owner's destruction and a leak check; plus the C01 tracked-element units; random: 50-step histories. One evaluation = one owner operation followed by the "
           "registry cross-check. Distinct = hash of (owner, abstract state before, operation, arguments)."),
     units=[
+        # fault injection: the k-th potentially-throwing element operation inside an owner operation throws (every k until the operation completes)
+        Unit("C03_throw", "harness/C03_throw.cpp", flavours={"quick": ["asan-cc"], "thorough": ["asan-cc", "asanO0-nocc"]}, shards={"quick": 4, "thorough": 8}),
         Unit("C03_owners", "harness/C03_owners.cpp", flavours={"quick": ["asan-cc"], "thorough": ["asan-cc", "asan-nocc"]}, shards={"quick": 12, "thorough": 16}),
         Unit("C03_sset_tracked", "harness/C09_sets.cpp", defs=["-DVF_UNIT=2", "-DVF_PART=0", "-g1"], flavours={"quick": ["asan-cc"], "thorough": ["asan-cc"]}, shards={"quick": 4, "thorough": 8}, only_kinds={"lifetime", "crash", "hang"}),
         Unit("C03_fset_tracked", "harness/C09_sets.cpp", defs=["-DVF_UNIT=8", "-DVF_PART=0", "-g1"], flavours={"quick": ["asan-cc"], "thorough": ["asan-cc"]}, shards={"quick": 4, "thorough": 8}, only_kinds={"lifetime", "crash", "hang"}),
